@@ -233,7 +233,9 @@ def b_som(D, p):
     return dict(a=a), dict(r=r)
 
 
-spec('SumOfMinterms', 'C08', lambda tier: [dict(aw=2, mins=(0, 3)), dict(aw=3, mins=(1, 2, 7)), dict(aw=3, mins=(5,)), dict(aw=2, mins=(0, 1, 2, 3))],
+spec('SumOfMinterms', 'C08', lambda tier: [dict(aw=2, mins=(0, 3)), dict(aw=3, mins=(1, 2, 7)), dict(aw=3, mins=(5,)), dict(aw=2, mins=(0, 1, 2, 3)),
+                                            dict(aw=3, mins=(0, 1, 2, 3, 4)), dict(aw=3, mins=(0, 1, 2, 3, 4, 5, 6)), dict(aw=3, mins=(1, 2, 3, 4, 5, 6, 7)),
+                                            dict(aw=4, mins=tuple(range(0, 15, 1))), dict(aw=4, mins=(0, 2, 3, 5, 6, 7, 8, 9, 10, 13)), dict(aw=1, mins=(1,))],
      b_som, lambda v, p: dict(r=int(v['a'] in p['mins'])))
 
 
